@@ -76,10 +76,12 @@ func (o *obSet) ok(construct, pos, detail string, facts ...string) {
 }
 
 func (o *obSet) fail(construct, pos, detail string, path []string, facts ...string) {
+	// the witness path goes into Facts (shown by -v, kept in the evidence samples and in the
+	// replay file) rather than into Path, which only the replay file prints
 	for _, s := range path {
 		facts = append(facts, "path: "+s)
 	}
-	o.put(construct, pos, Violated, detail, path, facts)
+	o.put(construct, pos, Violated, detail, nil, facts)
 }
 
 // failErr reports a breach that rests on "the error of one of these calls is not known to be
